@@ -211,6 +211,7 @@ thread_local! {
     static VALUES: Cell<u64> = const { Cell::new(0) };
     static SELFLOOP: Cell<u64> = const { Cell::new(0) };
     static RECOVERED: Cell<u64> = const { Cell::new(0) };
+    static REPATCHED: Cell<u64> = const { Cell::new(0) };
 }
 fn bump(c: &'static std::thread::LocalKey<Cell<u64>>) {
     c.with(|c| c.set(c.get() + 1));
@@ -536,6 +537,29 @@ where
                 }
             }
         }
+        // the graph is RE-PATCHED between two calls with the same processor and the same output
+        // node: one edge a -> t is moved to c -> t (every in-degree stays what it was, no node
+        // appears or disappears). Whatever a processor remembers from the previous call, the new
+        // call must be judged on the new graph alone.
+        if d.removed.is_empty() && d.readd == 0 && !d.edges.is_empty() && d.n >= 2 && (!lean || (d.edges.len() + out) % 2 == 0) {
+            let e = (out + d.edges.len()) % d.edges.len();
+            let (a, t) = d.edges[e];
+            let c = (a + 1 + out % (d.n - 1)) % d.n;
+            if c != a {
+                let mut d2 = d.clone();
+                d2.edges[e] = (c, t);
+                let mut b2 = build::<C>(&d2);
+                bump(&REPATCHED);
+                if !check_process(&mut b2, shared, out, &d2, 0, rep, lean) {
+                    return;
+                }
+                // and back again (the original graph, the processor last saw the re-patched one)
+                let mut b3 = build::<C>(d);
+                if !check_process(&mut b3, shared, out, d, 0, rep, lean) {
+                    return;
+                }
+            }
+        }
         // and a fresh processor
         let mut fresh = Processor::<C>::with_capacity(b.slots.max(1));
         if !check_process(&mut b, &mut fresh, out, d, calls, rep, lean) {
@@ -632,6 +656,7 @@ fn flush(rep: &mut Report) {
     rep.hit_n("functional_value_checked", VALUES.with(|c| c.replace(0)));
     rep.hit_n("self_loop_in_upstream", SELFLOOP.with(|c| c.replace(0)));
     rep.hit_n("process_after_a_node_panicked", RECOVERED.with(|c| c.replace(0)));
+    rep.hit_n("graph_repatched_between_calls", REPATCHED.with(|c| c.replace(0)));
 }
 
 /// removal variants of a description for the stable graph: every subset of <= 2 removed nodes,
@@ -676,7 +701,7 @@ fn main() {
     }
     let stage = cli.stage.clone();
     let (shard, nshards) = (cli.shard, cli.nshards);
-    for o in ["process_after_a_node_panicked", "cyclic_upstream_subgraph", "parallel_edges", "vacant_slots", "node_not_upstream_of_output", "functional_value_checked", "self_loop_in_upstream"] {
+    for o in ["graph_repatched_between_calls", "process_after_a_node_panicked", "cyclic_upstream_subgraph", "parallel_edges", "vacant_slots", "node_not_upstream_of_output", "functional_value_checked", "self_loop_in_upstream"] {
         rep.oblige(o, 1);
     }
     // one processor per container type reused across the whole run (stale visit state would show)
